@@ -25,6 +25,7 @@ TEMPLATES = {
     'arena': ('arena.vtmpl', 'src/lib.rs'),
     'rawvec': ('rawvec.vtmpl', 'src/collections/raw_vec.rs'),
     'vecpanic': ('vecpanic.vtmpl', 'src/collections/vec.rs'),
+    'strbounds': ('strbounds.vtmpl', 'src/collections/string.rs'),
 }
 
 
